@@ -118,6 +118,27 @@ func init() {
 	for k, v := range more4 {
 		more[k] = append(more[k], v...)
 	}
+	// fifth batch of seeded changes (DESIGN 10.8)
+	more5 := map[string][]string{
+		"C01": {"the zero padding is computed from the size of the file, not of one part (J8.padlen)"},
+		"C03": {"the reader's failure while the image is hashed makes signing fail (C1/C2 on SignAuthenticode)"},
+		"C05": {"the signed attributes are a DER SET OF for every content type (L6.setorder; found and led to the repair of Attributes.Marshal)", "id-data is signed detached whatever the content (L7.detached)", "the embedded attribute bytes are not rearranged after signing (L3.embedded)", "the reader's failure while the image is hashed makes signing fail (C1/C2)"},
+		"C06": {"id-data is signed detached whatever the content (L7.detached)"},
+		"C07": {"every decoded list is kept on every iteration (G2.kept)", "the entry loop is not capped by a constant (G10.count)", "a refused edit changes nothing (K0.atomic)", "Unmarshal gives its receiver what was decoded, not constants (G14.replace)"},
+		"C08": {"a failure is not reported with an error that is nil at that point (N3.stalenil)", "an io.EOF handed back by a header helper comes from its first read only (G4.eof)", "the entry loop is not capped by a constant (G10.count)"},
+		"C09": {"a refusal by a matching list is reported, not worked around with a new list (K9.refused)"},
+		"C10": {"a decoded descriptor shares no memory with its input (G9.copy)", "Unmarshal gives its receiver what was decoded, not constants (G14.replace)"},
+		"C11": {"the variable name reaches the path without a case conversion (F4.path)", "no constant cap on the value read (F7.cap)"},
+		"C12": {"what is read back is as long as what was stored (F7.read, F7.cap)"},
+		"C13": {"a failure is not reported with an error that is nil at that point (N3.stalenil)", "decoding adds nothing to package-level containers (T11.retain)", "Builder.BytesOrPanic in a function reachable from the entry points is reported whatever the shape (B.term)"},
+		"C14": {"a failure is not reported with an error that is nil at that point (N3.stalenil)", "decoding adds nothing to package-level containers (T11.retain)"},
+		"C15": {"a failure is not reported with an error that is nil at that point (N3.stalenil)", "the error of a read is looked at before a short count is taken for the end (C2.bypass)", "nothing changes the filesystem before signing succeeded, also through an asserted backend interface (C.order)"},
+		"C18": {"the UTF-16 byte-order policy of C17", "a GUID kept as bytes is taken apart as LE32, LE16, LE16 and eight raw bytes (G7.fields)", "node fields are decoded in the order their structure declares (H3.nodeorder)"},
+		"C19": {"no output in map iteration order (E.maporder)", "padding handed out is not shared memory that listing signatures writes (E.padshared)", "pooled state is reset on every path that used it (P.reset)"},
+	}
+	for k, v := range more5 {
+		more[k] = append(more[k], v...)
+	}
 	for k, v := range more {
 		m := Metas[k]
 		m.Decided = append(m.Decided, v...)
